@@ -368,9 +368,7 @@ func buildArg(a Arg, handles []value.Value) value.Value {
 		for i, x := range a.L {
 			vs[i] = value.Int(x)
 		}
-		if hostSlices != nil {
-			*hostSlices = append(*hostSlices, hostSlice{cur: vs, snap: append([]value.Value(nil), vs...)})
-		}
+		noteHostSlice(vs)
 		return value.NewList(vs...)
 	case "nums": // lazy, sized host list without faults
 		return hostList(a.I, -1, 0)
@@ -396,6 +394,16 @@ func buildArg(a Arg, handles []value.Value) value.Value {
 type hostSlice struct{ cur, snap []value.Value }
 
 var hostSlices *[]hostSlice
+
+// noteHostSlice: harness bookkeeping shared by all client tasks (only the baton holder runs; the race
+// detector must not see it as a conflict between clients).
+//
+//go:norace
+func noteHostSlice(vs []value.Value) {
+	if hostSlices != nil {
+		*hostSlices = append(*hostSlices, hostSlice{cur: vs, snap: append([]value.Value(nil), vs...)})
+	}
+}
 
 func hostSlicesChanged(hs []hostSlice) []string {
 	var out []string
